@@ -8,6 +8,10 @@
 
 namespace sc {
 
+// engines that create duplicate keys through the mutation API set this: lookups on an object
+// with duplicate keys are then not compared (the lookup map may return any of the equal keys)
+static bool g_skip_lookups_on_dup_keys = false;
+
 // Read a node back through the public accessors into a reference value.
 template <class N>
 static inline ref::Value to_ref(const N& n) {
@@ -124,7 +128,12 @@ static inline std::string compare(const N& n, const ref::Value& r, const std::st
         if (!s.empty()) return s;
       }
       // lookups: first match wins
-      for (size_t j = 0; j < r.o.size(); j++) {
+      bool dups = false;
+      if (g_skip_lookups_on_dup_keys)
+        for (size_t a = 0; a < r.o.size() && !dups; a++)
+          for (size_t b = a + 1; b < r.o.size(); b++)
+            if (r.o[a].first == r.o[b].first) dups = true;
+      for (size_t j = 0; j < r.o.size() && !dups; j++) {
         const std::string& key = r.o[j].first;
         size_t first = 0;
         while (r.o[first].first != key) first++;
